@@ -279,6 +279,11 @@ Section C01.
     apply String.eqb_eq in C. apply Nat.eqb_eq in E. eauto 10.
   Qed.
 
+  (* the curve gate: an ES* algorithm never accepts with a key on another curve *)
+  Theorem ec_curve_gate r k msg sig :
+    ja_family r = "EC"%string -> averify r k msg sig = Ok true -> k_crv k = ja_curve r.
+  Proof. intros F H. exact (proj1 (ec_accept_inv r k msg sig F H)). Qed.
+
   Theorem hmac_accept_inv r k msg sig :
     ja_family r = "HMAC"%string -> averify r k msg sig = Ok true ->
     mac (ja_hash r) (k_id k) msg = Ok sig.
